@@ -3,9 +3,11 @@
 # active) and print one line per change. Leaves /repo clean.
 cd /verif || exit 2
 for d in seeded/*/; do
-  p=$(python3 -c "import json;print(json.load(open('$d/meta.json'))['property'])")
-  out=$(tools/try_mutant.sh "/verif/$d/patch.diff" "$p" 2>&1)
-  rc=$(echo "$out" | grep -o "rc=[0-9]*" | head -1)
+  # the checks to run: the change's property, or the list in meta.json's run_checks (a change written against one
+  # property may be a violation of another one's statement)
+  p=$(python3 -c "import json;m=json.load(open('$d/meta.json'));print(m.get('run_checks', m['property']))")
+  out=$(tools/try_mutant.sh "/verif/$d/patch.diff" $p 2>&1)
+  rc=$(echo "$out" | grep -o "rc=[0-9]*" | sort -r | head -1)
   echo "$(basename $d) $p $rc $(echo "$out" | grep -E '^violation|oracle=' | head -1 | cut -c1-120)"
 done
 /verif/check build >/dev/null 2>&1
